@@ -159,3 +159,9 @@ func VerifGameExecutorRunWrite(msg *notify.ClientTransactionMessage) {
 	executor.logger = log.GetLoggerByIndex(log.GameExecutorLogConfig, common.GlobalConf.GetString("instance", "index", ""))
 	executor.runWrite(&middleware.Item{Value: msg})
 }
+
+// VerifCalcReceiptsTree is the receipts root the proposer puts into the header
+// and every verifier recomputes (calcReceiptsTree).
+func VerifCalcReceiptsTree(receipts types.Receipts) common.Hash {
+	return calcReceiptsTree(receipts)
+}
